@@ -70,24 +70,30 @@ class map_gradient_coordinates_linear:
     }
 
 
-@contract("nanoemoji.svg._map_gradient_coordinates", props=["C02", "C13", "C16"])
+def _len2(affine):
+    return affine.a * affine.a + affine.b * affine.b
+
+
+@contract("nanoemoji.svg._map_gradient_coordinates", props=["C02", "C13", "C16", "C20"])
 class map_gradient_coordinates_radial:
     args = {"paint": RAD, "affine": AFF}
     requires = [lambda paint: paint.r0 >= 0 and paint.r1 >= 0]
-    # circles stay circles only under a uniform scale (+ flip) and translation: anything else
-    # is an error, never a silently wrong radius
-    raises = {"ValueError": lambda affine: affine.a == 0 or abs(affine.a) != abs(affine.d)}
+    # circles stay circles only under a similarity -- uniform scale, rotation, reflection,
+    # translation: the columns of the linear part are orthogonal and of equal length (to
+    # within 1e-9 relative, floats); anything else is an error, never a silently wrong radius
+    raises = {"ValueError": lambda affine: _len2(affine) == 0 or abs(affine.a * affine.c + affine.b * affine.d) > 1e-9 * _len2(affine) or abs(_len2(affine) - (affine.c * affine.c + affine.d * affine.d)) > 1e-9 * _len2(affine)}
     ensures = {
         "centres-mapped": lambda paint, affine, result: (tuple(result.c0), tuple(result.c1))
         == (spec.pt(spec.aff(affine), paint.c0), spec.pt(spec.aff(affine), paint.c1)),
         # radii are lengths: scaled by |s|, never negative (SVG: a negative r is an error and
         # nothing is painted)
-        "radii-scaled": lambda paint, affine, result: result.r0 == abs(affine.a) * paint.r0 and result.r1 == abs(affine.a) * paint.r1,
+        # ... by the similarity's factor, the length of the mapped unit vector (NOT |a|: under a
+        # rotation by t that would shrink the circle by cos t)
+        "radii-scaled": lambda paint, affine, result: result.r0 * result.r0 == _len2(affine) * paint.r0 * paint.r0 and result.r1 * result.r1 == _len2(affine) * paint.r1 * paint.r1,
         "radii-non-negative": lambda result: result.r0 >= 0 and result.r1 >= 0,
         "colour-line-kept": lambda paint, result: same(result.stops, paint.stops) and same(result.extend, paint.extend),
     }
     native_skip = ("centres-mapped", "radii-scaled")
-    native_requires = lambda affine: affine.b == 0 and affine.c == 0
 
 
 # ---------------------------------------------------------------------------- gradient definitions
